@@ -234,6 +234,13 @@ def run_plan(plan, fault=None, max_iter=60_000):
         await h.handle_client()
         w.returned = True
         w.log("returned")
+        # hooks started by the layer are not awaited by handle_client; let them complete (they are finite) so that
+        # what their completion triggers on the finished handler is observed too
+        for _ in range(4):
+            pend = [t for t in loop.tasks if not t.done() and t.get_name().startswith("handle_hook(")]
+            if not pend:
+                break
+            await asyncio.wait(pend, timeout=4000)
 
     out = simloop.run(main, overshoots=[x * OV_U for x in plan.get("overshoots", ())], max_iter=max_iter, setup=setup,
                       eager=plan.get("eager", False))
